@@ -600,7 +600,9 @@ def name_table_specs(totals=None):
 def tied_run_specs():
     """Several runs tied for the greatest length, a shorter run first (code that singles out "the" longest run)."""
     out = []
-    for lens in ([4, 16, 16], [1, 16, 16, 16], [3, 17, 5, 17], [16, 16], [2, 64, 64], [5, 3, 5, 3, 5]):
+    for lens in ([4, 16, 16], [1, 16, 16, 16], [3, 17, 5, 17], [16, 16], [2, 64, 64], [5, 3, 5, 3, 5],
+                 # first == last == average with uneven middle runs
+                 [2, 1, 3, 2], [3, 2, 4, 3], [2, 2, 1, 3, 2], [2, 3, 1, 2, 2]):
         for r, base in (("i16", -20), ("u8", 0)):
             vals, cur = [], base
             for ln in lens:
